@@ -47,6 +47,41 @@ CLAIMED = {
             "Seeded search over histories as C01/C02 with one crash per run placed before/after the k-th storage call, before/after the k-th handler call or at the n-th yield of the manager's tasks, injected storage write errors, then a restart from exactly what the storage made durable; checks the persist-ahead invariant at every write and that the union of both runs' handler logs covers the server log.",
             "Trusted: storage writes are atomic and immediately durable; a crash freezes every task of the manager at that exact point (nothing finishes up); crash points are sampled, not enumerated (level kept as fault_enumeration because the fault dimension is the crash point).",
             "DESIGN.md §6 C03"),
+    "C04": ("wire", "exploration",
+            "deterministic simulation: client/server cipher pair under a failing entropy source, and the real mtproto.Conn against a decrypting server endpoint (with and without the gzip path); wire monitor on every frame",
+            "Seeded search over header fields, payload lengths clustered at block/compression boundaries up to 1 MiB, entropy faults (short reads, errors), compression thresholds and concurrent invokes; every frame must decrypt on the other side to exactly the submitted fields and payload, with a body length divisible by 16 and 12..1024 bytes of padding. The value space is sampled by the workload generator; what simulation adds is the two-party setting, the failing entropy source and the connection-level path.",
+            "Trusted: crypto.NewServerCipher as the server's decryptor; simrand.",
+            "DESIGN.md §6 C04"),
+    "C05": ("wire", "exploration",
+            "deterministic simulation with a corrupting network between a scripted server and the real mtproto.Conn: bit flips (key id, msg key, body), truncation, extension, block swaps, reflection, foreign keys, wrong direction; no-effect oracle",
+            "Seeded search over tampering kind and position with a pending RPC and a recording handler; a tampered/reflected/foreign frame must be refused by DecryptFromBuffer (error, no data) and must cause no handler call and no RPC completion; honest traffic afterwards must still be accepted.",
+            "Trusted: each tampered frame carries a marker that exists in no untampered frame, so any effect is attributable.",
+            "DESIGN.md §6 C05"),
+    "C07": ("wire", "exploration",
+            "deterministic simulation: scripted server crafts otherwise valid frames (other session, wrong id type, age boundaries, replays, illegal paddings via the harness's own MTProto 2.0 encryption, unaligned length) under client clock skew; reference acceptance model; the replay buffer also against the window rule directly",
+            "Seeded search over crafted-message kinds, boundary values (299/300/301 s, 29/30/31 s, padding 0..1040), replay distance (one of the last 8 accepted), clock skew and pauses; a message must reach the handler iff the reference model (written from the property text) accepts it, replays at most once.",
+            "Trusted: the harness's own encryption for paddings the library never emits (crypto.MessageKey/Keys + IGE); replays are sent only after the original was processed; replay clause stated for N >= 8 at connection level and exactly (n in 1..8) at buffer level.",
+            "DESIGN.md §6 C07"),
+    "C08": ("wire", "exploration",
+            "deterministic simulation: the id generator under clock faults (frozen, 1-3 ns crawl, coarse ticks, backward jumps) with concurrent callers, and the connection-level tap of every written frame under concurrent invokes/pings/acks",
+            "Seeded search over clock behaviours and caller interleavings; ids must be strictly increasing in generation order, divisible by 4, time-monotone and close to the clock reading; on the wire, in message-id order, content messages must carry seq_no 2c+1 and service messages 2c.",
+            "Trusted: generation order is observed through the clock seam (the clock is read inside the generator's lock).",
+            "DESIGN.md §6 C08"),
+    "C23": ("wire", "exploration",
+            "deterministic simulation with a byzantine but authenticated server: fuzz-corpus bodies (14k files), mutations, generated service messages, containers/gzip/rpc_result nests, while invokes are pending; no-panic and routing oracle",
+            "Seeded search over payload kinds and nesting, with 0-4 pending invokes holding unique expected results; connection code must not panic, and an invoke that completes must return a value the server addressed to its own message id.",
+            "Trusted: panics attributed to gotd/td when the panicking frame is a /repo file.",
+            "DESIGN.md §6 C23"),
+    "C41": ("wire", "exploration",
+            "deterministic simulation in simulated time: scripted session salts, future_salts sets (expired, overlapping, duplicated, far future), bad_server_salt at chosen requests, clock jumps; wire monitor on the salt of every frame and on re-sends",
+            "Seeded search over salt schedules, rejection plans (0/1/2 rejections per request), pauses from seconds to hours and clock jumps; every frame's salt must be the last salt the server told or an unexpired stored future salt; a rejected request must be re-sent with the new salt and succeed after one rejection, fail after two, and not be sent again.",
+            "Trusted: server-side bookkeeping of what it told the client; expiry judged on the client's clock.",
+            "DESIGN.md §6 C41"),
+    "C43": ("wire", "exploration",
+            "deterministic simulation in simulated time: pongs that match, mismatch, duplicate, arrive inside rpc_result, late, exactly at the deadline or never; half-open link (writes block); ping-result and keep-alive liveness oracle",
+            "Seeded search over pong plans, ping/keep-alive timing and a link whose writes stall; Ping may return nil only after its own pong was delivered and must return by the end of its context; a keep-alive ping without a timely pong must end the connection within the ping timeout.",
+            "Trusted: bubble clock; the scripted server's record of which pong was handed to the client when.",
+            "DESIGN.md §6 C43"),
     "C16": ("stream", "exploration",
             "deterministic simulation of codecs + transport connection/listener over a chunking byte-stream network with concurrent senders; sequence-equality oracle",
             "Seeded search over codec x handshake/listener mode x obfuscation x read chunking x 1-3 concurrent senders x payload sizes clustered at the length-encoding boundaries; the receiver must get exactly the sent payloads (per-sender order, byte-exact, once), 4-byte frames must surface as *codec.ProtocolErr with that code, and the listener's detected codec must be the client's.",
